@@ -439,14 +439,14 @@ func valueLess(a, b value) bool {
 // inStage2 reports whether the formatting call comes from emitted (stage-2) code.
 func (i *interpreter) inStage2(fr *frame) bool {
 	for f := fr; f != nil; f = f.caller {
-		if f.fn != nil && f.fn.Pkg != nil && strings.HasPrefix(f.fn.Pkg.Pkg.Path(), "zzgen/") {
+		if f.fn != nil && f.fn.Pkg != nil && isEmittedPkg(f.fn.Pkg.Pkg.Path()) {
 			return true
 		}
 	}
 	for k := len(i.callStack) - 1; k >= 0; k-- {
 		fn := i.callStack[k]
 		if fn.Pkg != nil {
-			return strings.HasPrefix(fn.Pkg.Pkg.Path(), "zzgen/")
+			return isEmittedPkg(fn.Pkg.Pkg.Path())
 		}
 	}
 	return false
